@@ -201,6 +201,32 @@ def run(ctx):
                     ctx.violation(sp_lines[k - n + i], {"why": "a spend valid under the larger flag set must be valid under the smaller one", "label": meta["label"],
                                                         "larger": fls[i], "smaller": fls[j], "out_larger": outs[i][-200:], "out_smaller": outs[j][-200:]})
     ctx.count("spend-monotone-chains", len(sp))
+    # 6. the same on scripts with real signatures in a transaction (digest-dependent rules: script code behind OP_CODESEPARATOR, FindAndDelete,
+    #    hash types), along chains dropping the signature-related flags
+    from . import c02
+    sc_cases = c02.script_cases(random.Random(ctx.seed * 9 + 6), True)
+    sc_cases = [c for c in sc_cases if "codesep" in c[1]["shape"] or "find-and-delete" in c[1]["shape"] or "multisig" in c[1]["shape"]][: (120 if quick else 2000)]
+    cl, spans = [], []
+    for (line, meta) in sc_cases:
+        w = line.split(" ")
+        chain = R.flag_chain(rnd, int(w[4]) | (1 << R.FLAG_BITS["CONST_SCRIPTCODE"]) | (1 << R.FLAG_BITS["NULLFAIL"]), R.SIGOP_FLAGS, k=4)
+        spans.append((meta["shape"], chain, len(cl)))
+        for f in chain:
+            w2 = list(w); w2[4] = str(f); cl.append(" ".join(w2))
+    ci = ctx.harness_sharded(cl); cm = ctx.driver_sharded(cl, "model")
+    ctx.compare("signed-chains", cl, ci, [strip(m) for m in cm], None, nontrivial=lambda c, im: "steps=" in im)
+    nv = 0
+    for shape, chain, k0 in spans:
+        outs = ci[k0:k0 + len(chain)]
+        vs = [c03.verdict_of_impl(o, f) for o, f in zip(outs, chain)]
+        for j in range(len(chain)):
+            for i in range(j):
+                if vs[i] == "VALID" and vs[j] != "VALID":
+                    nv += 1
+                    if nv <= 5:
+                        ctx.violation(cl[k0 + i], {"why": "a signed script valid under the larger flag set must be valid under the smaller one", "shape": shape,
+                                                   "larger": chain[i], "smaller": chain[j], "out_larger": outs[i][-200:], "out_smaller": outs[j][-200:]})
+    ctx.count("signed-monotone-chains", len(spans))
 
 
 def replay(ctx, case):
